@@ -12,6 +12,7 @@
   change between submit and apply).
 -/
 import RaftVerif.Proofs.LeaderSpecs
+import RaftVerif.Proofs.ReplSafety
 import RaftVerif.Proofs.AppendEntries
 set_option linter.unusedSimpArgs false
 namespace Raft
@@ -58,5 +59,17 @@ theorem C03_leader_submission_never_truncates (n : Node) (now data i : Nat) :
   · unfold sendAEToPeers tryApplyReadOnly
     simp only
     split <;> simp <;> split <;> simp
+
+/-! ### Cluster level (Proofs/ReplSafety.lean) -/
+
+/-- **An acknowledged operation keeps its position.** What a leader has committed (it answers a
+    client only for entries at or below its commit index, C03_answer_is_applied_entry) is, in
+    every later state, a prefix of — or extended by — the committed prefix of every node: the
+    operation acknowledged at index `i` is the operation every replica applies at `i`. -/
+theorem C03_acknowledged_position_is_final {cfg : Config} (hnd : cfg.voterIds.Nodup) {s s' : Repl.AState}
+    (hr : Repl.Reachable cfg s) (hfrom : Repl.ReachableFrom cfg s s') (leader b : Nat) :
+    (s.nodes leader).log.take (s.nodes leader).commit <+: (s'.nodes b).log.take (s'.nodes b).commit ∨
+    (s'.nodes b).log.take (s'.nodes b).commit <+: (s.nodes leader).log.take (s.nodes leader).commit :=
+  Repl.state_machine_safety hnd hr hfrom leader b
 
 end Raft
